@@ -7,7 +7,14 @@
     (b) the receive-side ownership machine `RecvStream::{poll_data, stop_sending, recv_id}`
         (`stream: Option<quinn::RecvStream>` is `None` while the boxed read future owns the stream);
     (c) `convert_connection_error`, `convert_read_error_to_stream_error`,
-        `convert_write_error_to_stream_error` as finite tables over Quinn's error enums.
+        `convert_write_error_to_stream_error` as finite tables over Quinn's error enums;
+    (d) the unframed write path `SendStreamUnframed::poll_send` against one `poll_write` answer, and
+        the `while buf.has_remaining() { ready!(poll_send) }` loop its callers run;
+    (e) the unsplit `BidiStream` (every method delegates to one of its halves) and `split`;
+    (f) the `OpenStreams` objects (`Connection`, `Connection::opener()`, `OpenStreams::clone()`):
+        `poll_open_bidi` / `poll_open_send` against what Quinn's `open_bi()` / `open_uni()` future
+        does, `poll_accept_bidi` / `poll_accept_recv` likewise, `close(code, reason)`;
+    (g) `h3-quinn/src/datagram.rs`: the two conversion functions and the handlers.
 
     Panics are explicit (`none` / `.panic`). `u64` codes are `Nat`; Quinn's `VarInt` codes are
     `< 2^62` and are widened to `u64` (`into_inner`, `.into()`), which cannot wrap. -/
@@ -252,9 +259,21 @@ structure PollOut where
   rest : List Accept
 deriving Repr, DecidableEq
 
-/-- `SendStream::poll_ready`. On `Pending` and on an error `writing` keeps the (advanced) buffer;
-    only a completed loop clears it. -/
+/-- `SendStream::poll_ready`. On `Pending` `writing` keeps the (advanced) buffer; a completed loop
+    clears it, and so does a failed one (the write will not be resumed: repair of D-17c). -/
 def pollReady (s : Send) (script : List Accept) : PollOut :=
+  match s.writing with
+  | none => ⟨⟨none⟩, .ok, [], script⟩
+  | some d =>
+    let o := writeLoop d script
+    match o.res with
+    | .ok => ⟨⟨none⟩, .ok, o.acc, o.rest⟩
+    | .err e => ⟨⟨none⟩, .err e, o.acc, o.rest⟩
+    | .pending => ⟨⟨some o.buf⟩, .pending, o.acc, o.rest⟩
+
+/-- `poll_ready` before the repair (D-17c): `poll_write(..).map_err(..)?` returned with `writing`
+    still `Some`, so that every later `send_data` on the stream was refused with the internal error. -/
+def pollReadyUnrepaired (s : Send) (script : List Accept) : PollOut :=
   match s.writing with
   | none => ⟨⟨none⟩, .ok, [], script⟩
   | some d =>
@@ -393,5 +412,378 @@ def Recv.run : Recv → List RecvOp → Recv × List RecvOut
     let (r', o) := r.step op
     let (r'', os) := Recv.run r' ops
     (r'', o :: os)
+
+/-! ## (d) the unframed write path -/
+
+/-- The caller's `D: Buf` as the list of its chunks (`&[u8]` = one, `Chain<Bytes, Bytes>` = two,
+    `WriteBuf` = header and payload): `chunk()` is the first chunk that is not empty, `advance`
+    walks over chunk boundaries. -/
+def ubView (b : List Bytes) : Bytes := b.flatten
+
+def ubChunk : List Bytes → Bytes
+  | [] => []
+  | p :: r => if p.length = 0 then ubChunk r else p
+
+def ubAdvance : List Bytes → Nat → List Bytes
+  | [], _ => []
+  | p :: r, k => if k < p.length then p.drop k :: r else ubAdvance r (k - p.length)
+
+/-- `Poll<Result<usize, StreamErrorIncoming>>` of `poll_send`, plus its two guards. -/
+inductive SendOut where
+  | pending
+  | ok (k : Nat)
+  | err (e : StreamErr)
+  /-- `ConnectionErrorIncoming::InternalError`, as `send_data` answers in the same situation -/
+  | refused
+  | panic
+deriving Repr, DecidableEq
+
+structure USendOut where
+  buf : List Bytes        -- the caller's buffer afterwards
+  res : SendOut
+  acc : Bytes             -- bytes Quinn accepted in this call
+deriving Repr, DecidableEq
+
+/-- `SendStream::poll_send(cx, buf)` against the answer `a` of the one `poll_write(cx, buf.chunk())`
+    it makes. While a framed write is unfinished (`writing` is `Some`) the call is refused like a
+    second `send_data` (repair of D-17b; the stream's own state never changes). -/
+def pollSend (s : Send) (buf : List Bytes) (a : Accept) : USendOut :=
+  match s.writing with
+  | some _ => ⟨buf, .refused, []⟩
+  | none =>
+    match a with
+    | .pending => ⟨buf, .pending, []⟩
+    | .err e => ⟨buf, .err (convertWrite e), []⟩
+    | .ok k =>
+      let c := ubChunk buf
+      let t := min k c.length
+      ⟨ubAdvance buf t, .ok t, c.take t⟩
+
+/-- `poll_send` before the repair (D-17b): `panic!("poll_send called while send stream is not ready")`. -/
+def pollSendUnrepaired (s : Send) (buf : List Bytes) (a : Accept) : USendOut :=
+  match s.writing with
+  | some _ => ⟨buf, .panic, []⟩
+  | none => pollSend s buf a
+
+inductive SendAllRes where
+  | done
+  | pending
+  | err (e : StreamErr)
+  | refused
+deriving Repr, DecidableEq
+
+structure SendAllOut where
+  buf : List Bytes
+  res : SendAllRes
+  acc : Bytes
+  rest : List Accept
+deriving Repr, DecidableEq
+
+/-- What every caller of `poll_send` runs (`h3_webtransport`'s `OpenBi`/`OpenUni`, `write_all`):
+    `while buf.has_remaining() { ready!(poll_send(cx, buf))? }`, polled again after each `Pending`.
+    One script entry per `poll_write`; an exhausted script = the transport never answers again. -/
+def sendAll (s : Send) (buf : List Bytes) : List Accept → SendAllOut
+  | [] => if (ubView buf).length = 0 then ⟨buf, .done, [], []⟩ else ⟨buf, .pending, [], []⟩
+  | a :: r =>
+    if (ubView buf).length = 0 then ⟨buf, .done, [], a :: r⟩ else
+    let o := pollSend s buf a
+    match o.res with
+    | .ok _ =>
+      let o' := sendAll s o.buf r
+      { o' with acc := o.acc ++ o'.acc }
+    | .pending => sendAll s buf r
+    | .err e => ⟨buf, .err e, [], r⟩
+    | .refused => ⟨buf, .refused, [], r⟩
+    | .panic => ⟨buf, .refused, [], r⟩
+
+/-! ## (e) the unsplit `BidiStream` -/
+
+/-- `BidiStream<B> { send, recv }`. `sendId` is what `quinn::SendStream::id()` of the send half
+    returns — Quinn's value, a constant of the handle. -/
+structure Bidi where
+  sendId : Nat
+  send : Send
+  recv : Recv
+deriving Repr, DecidableEq
+
+/-- `poll_open_bidi` / `poll_accept_bidi`: both halves are the two ends of ONE Quinn stream. -/
+def Bidi.new (id : Nat) : Bidi := { sendId := id, send := ⟨none⟩, recv := Recv.new id }
+
+inductive BidiOp where
+  | recv (op : RecvOp)                 -- poll_data / stop_sending / recv_id ⇒ `self.recv.…`
+  | sendData (d : WriteBuf)            -- ⇒ `self.send.send_data`
+  | pollReady (script : List Accept)   -- ⇒ `self.send.poll_ready`
+  | sendId                             -- ⇒ `self.send.send_id`
+deriving Repr, DecidableEq
+
+inductive BidiOut where
+  | recv (o : RecvOut)
+  | send (r : SendRes)
+  | ready (r : Ready)
+  | id (n : Nat)
+deriving Repr, DecidableEq
+
+def Bidi.step (b : Bidi) : BidiOp → Bidi × BidiOut
+  | .recv op => let (r, o) := b.recv.step op; ({ b with recv := r }, .recv o)
+  | .sendData d => let (s, r) := sendData b.send d; ({ b with send := s }, .send r)
+  | .pollReady sc => let o := pollReady b.send sc; ({ b with send := o.state }, .ready o.res)
+  | .sendId => (b, .id b.sendId)
+
+def Bidi.run : Bidi → List BidiOp → Bidi × List BidiOut
+  | b, [] => (b, [])
+  | b, op :: ops =>
+    let (b', o) := b.step op
+    let (b'', os) := Bidi.run b' ops
+    (b'', o :: os)
+
+/-- `BidiStream::split`: the two fields, nothing else. -/
+def Bidi.split (b : Bidi) : (Nat × Send) × Recv := ((b.sendId, b.send), b.recv)
+
+/-- The same operations applied to the halves separately. -/
+def sendHalfRun : Send → List BidiOp → Send
+  | s, [] => s
+  | s, .sendData d :: ops => sendHalfRun (sendData s d).1 ops
+  | s, .pollReady sc :: ops => sendHalfRun (pollReady s sc).state ops
+  | s, _ :: ops => sendHalfRun s ops
+
+def recvHalfOps : List BidiOp → List RecvOp
+  | [] => []
+  | .recv op :: ops => op :: recvHalfOps ops
+  | _ :: ops => recvHalfOps ops
+
+/-! ## (f) opening and accepting streams, closing -/
+
+/-- What Quinn's `open_bi()` / `open_uni()` / `accept_bi()` / `accept_uni()` future does when the
+    adapter polls it: not yet (no stream credit / nothing arrived), a stream with this id, or the
+    connection's error. -/
+inductive OpenEv where
+  | pending
+  | ok (id : Nat)
+  | err (e : ConnectionError)
+deriving Repr, DecidableEq
+
+/-- `OpenStreams` / the opening half of `Connection`: whether the boxed `unfold` streams exist yet
+    (`get_or_insert_with`). They buffer nothing: a stream exists only once Quinn's future completed,
+    and then it is returned by that very poll. -/
+structure Opener where
+  openingBi : Bool
+  openingUni : Bool
+deriving Repr, DecidableEq
+
+/-- `Connection::new`, `Connection::opener()` and `OpenStreams::clone()` all start without a future. -/
+def Opener.new : Opener := ⟨false, false⟩
+def Opener.clone (_ : Opener) : Opener := Opener.new
+
+inductive OpenOut where
+  | pending
+  | bidi (b : Bidi)
+  | send (id : Nat)
+  | err (e : StreamErr)
+deriving Repr, DecidableEq
+
+/-- `poll_open_bidi`: an error of the connection arrives as `StreamErrorIncoming::ConnectionErrorIncoming`. -/
+def pollOpenBidi (o : Opener) (ev : OpenEv) : Opener × OpenOut :=
+  ({ o with openingBi := true },
+   match ev with
+   | .pending => .pending
+   | .ok id => .bidi (Bidi.new id)
+   | .err e => .err (.connection (convertConn e)))
+
+/-- `poll_open_send`. -/
+def pollOpenSend (o : Opener) (ev : OpenEv) : Opener × OpenOut :=
+  ({ o with openingUni := true },
+   match ev with
+   | .pending => .pending
+   | .ok id => .send id
+   | .err e => .err (.connection (convertConn e)))
+
+inductive AcceptOut where
+  | pending
+  | bidi (b : Bidi)
+  | recv (r : Recv)
+  | err (e : ConnErr)
+deriving Repr, DecidableEq
+
+/-- `poll_accept_bidi` / `poll_accept_recv`: here the error stays a `ConnectionErrorIncoming`. -/
+def pollAcceptBidi : OpenEv → AcceptOut
+  | .pending => .pending
+  | .ok id => .bidi (Bidi.new id)
+  | .err e => .err (convertConn e)
+def pollAcceptRecv : OpenEv → AcceptOut
+  | .pending => .pending
+  | .ok id => .recv (Recv.new id)
+  | .err e => .err (convertConn e)
+
+/-- One step of a caller that opens streams through one opener: which kind, and what Quinn does. -/
+structure OpenStep where
+  bidi : Bool
+  ev : OpenEv
+deriving Repr, DecidableEq
+
+def Opener.step (o : Opener) (st : OpenStep) : Opener × OpenOut :=
+  if st.bidi then pollOpenBidi o st.ev else pollOpenSend o st.ev
+
+def Opener.run : Opener → List OpenStep → Opener × List OpenOut
+  | o, [] => (o, [])
+  | o, st :: r =>
+    let (o', x) := o.step st
+    let (o'', xs) := Opener.run o' r
+    (o'', x :: xs)
+
+/-- The ids of the streams a list of answers hands to the caller (a bidirectional stream counts
+    only if both halves carry the same id). -/
+def handedOut : List OpenOut → List Nat
+  | [] => []
+  | .bidi b :: r => (if b.sendId = b.recv.id then [b.sendId] else []) ++ handedOut r
+  | .send id :: r => id :: handedOut r
+  | _ :: r => handedOut r
+
+/-- …and the ids of the streams Quinn created. -/
+def created : List OpenStep → List Nat
+  | [] => []
+  | st :: r => (match st.ev with | .ok id => [id] | _ => []) ++ created r
+
+/-- `OpenStreams::close(code, reason)`: what `quinn::Connection::close` is called with; `none` = the
+    `expect("error code VarInt")` panic. The reason is passed through untouched. -/
+def closeArgs (code : Nat) (reason : Bytes) : Option (Nat × Bytes) :=
+  match closeArg code with
+  | some c => some (c, reason)
+  | none => none
+
+/-! ## (g) datagrams (`h3-quinn/src/datagram.rs`) -/
+
+/-- `quinn::SendDatagramError`. -/
+inductive SendDatagramError where
+  | unsupportedByPeer
+  | disabled
+  | tooLarge
+  | connectionLost (e : ConnectionError)
+deriving Repr, DecidableEq
+
+/-- `h3_datagram::quic_traits::SendDatagramErrorIncoming`. -/
+inductive DgErr where
+  | notAvailable
+  | tooLarge
+  | connection (e : ConnErr)
+deriving Repr, DecidableEq
+
+/-- `convert_h3_error_to_datagram_error` (`h3_datagram::ConnectionErrorIncoming` is a re-export of
+    h3's type: the four arms rebuild the value they matched). -/
+def convertH3ToDatagram : ConnErr → ConnErr
+  | .applicationClose c => .applicationClose c
+  | .timeout => .timeout
+  | .internalError => .internalError
+  | .undefined e => .undefined e
+
+/-- `convert_send_datagram_error`. -/
+def convertSendDatagram : SendDatagramError → DgErr
+  | .unsupportedByPeer => .notAvailable
+  | .disabled => .notAvailable
+  | .tooLarge => .tooLarge
+  | .connectionLost e => .connection (convertH3ToDatagram (convertConn e))
+
+/-- `SendDatagramHandler::send_datagram`: the `EncodedDatagram` (quarter stream id varint, then the
+    payload) is copied into ONE `Bytes` (`copy_to_bytes(remaining)`) and handed to Quinn whole. -/
+def datagramWire (qid payload : Bytes) : Bytes := qid ++ payload
+
+def SendDatagramError.name : SendDatagramError → String
+  | .unsupportedByPeer => "UnsupportedByPeer"
+  | .disabled => "Disabled"
+  | .tooLarge => "TooLarge"
+  | .connectionLost _ => "ConnectionLost"
+
+def DgErr.className : DgErr → String
+  | .notAvailable => "NotAvailable"
+  | .tooLarge => "TooLarge"
+  | .connection _ => "ConnectionError"
+
+def allSendDatagramErrors : List SendDatagramError :=
+  [.unsupportedByPeer, .disabled, .tooLarge, .connectionLost .timedOut]
+def allConnErrs : List ConnErr :=
+  [.applicationClose 7, .timeout, .internalError, .undefined .reset]
+
+def dgSendCarried (e : SendDatagramError) : String :=
+  match e, convertSendDatagram e with
+  | .connectionLost x, .connection y => if y = convertH3ToDatagram (convertConn x) then "conn" else "-"
+  | _, _ => "-"
+def dgConnCarried (e : ConnErr) : String :=
+  match e, convertH3ToDatagram e with
+  | .applicationClose c, .applicationClose c' => if c = c' then "same" else "-"
+  | .undefined x, .undefined y => if x = y then "same" else "-"
+  | .internalError, .internalError => "same"   -- the message (not modelled) is passed on
+  | _, _ => "-"
+
+def dgSendTable : List (String × String × String) :=
+  allSendDatagramErrors.map fun e => (e.name, (convertSendDatagram e).className, dgSendCarried e)
+def dgConnTable : List (String × String × String) :=
+  allConnErrs.map fun e => (e.className, (convertH3ToDatagram e).className, dgConnCarried e)
+
+/-! The arms that wrap the very error they matched (`error @ … => Undefined(Arc::new(error))`,
+    `Unknown(Box::new(error))`), as (function, variant) pairs; compared with the source. -/
+def connWraps (e : ConnectionError) : Bool :=
+  match convertConn e with
+  | .undefined x => x = e
+  | _ => false
+def readWraps (e : ReadError) : Bool :=
+  match e, convertRead e with
+  | .closedStream, some (.unknown .closedStream) => true
+  | .zeroRttRejected, some (.unknown .zeroRttRejected) => true
+  | _, _ => false
+def writeWraps (e : WriteError) : Bool :=
+  match e, convertWrite e with
+  | .closedStream, .unknown .closedStream => true
+  | .zeroRttRejected, .unknown .zeroRttRejected => true
+  | _, _ => false
+def wrapTable : List (String × String) :=
+  ((allConnectionErrors.filter connWraps).map fun e => ("convert_connection_error", e.name)) ++
+  ((allReadErrors.filter readWraps).map fun e => ("convert_read_error_to_stream_error", e.name)) ++
+  ((allWriteErrors.filter writeWraps).map fun e => ("convert_write_error_to_stream_error", e.name))
+
+/-- Which conversion, which guard and which delegation each method of the adapter uses, as
+    (impl, method, features in source order). This is the hand-written half; the other half is
+    re-extracted from `h3-quinn/src/{lib,datagram}.rs` (`H3.Gen.QuinnTables.siteTable`). Features:
+    `conn`/`read`/`write`/`dgram` = the conversion function called, `stream-conn` = wrapped into
+    `StreamErrorIncoming::ConnectionErrorIncoming`, `unknown` = boxed into `Unknown`, `internal` =
+    `InternalError` built, `expect`/`unwrap`/`panic`/`unreachable` = a panic site,
+    `send.f`/`recv.f` = delegation to a half. -/
+def siteTable : List (String × String × String) := [
+  ("Connection", "new", ""),
+  ("quic::Connection<B> for Connection", "poll_accept_bidi", "expect conn"),
+  ("quic::Connection<B> for Connection", "poll_accept_recv", "expect conn"),
+  ("quic::Connection<B> for Connection", "opener", ""),
+  ("quic::OpenStreams<B> for Connection", "poll_open_bidi", "expect stream-conn conn"),
+  ("quic::OpenStreams<B> for Connection", "poll_open_send", "expect stream-conn conn"),
+  ("quic::OpenStreams<B> for Connection", "close", "expect"),
+  ("quic::OpenStreams<B> for OpenStreams", "poll_open_bidi", "expect stream-conn conn"),
+  ("quic::OpenStreams<B> for OpenStreams", "poll_open_send", "expect stream-conn conn"),
+  ("quic::OpenStreams<B> for OpenStreams", "close", "expect"),
+  ("Clone for OpenStreams", "clone", ""),
+  ("quic::BidiStream<B> for BidiStream<B>", "split", ""),
+  ("quic::RecvStream for BidiStream<B>", "poll_data", "recv.poll_data"),
+  ("quic::RecvStream for BidiStream<B>", "stop_sending", "recv.stop_sending"),
+  ("quic::RecvStream for BidiStream<B>", "recv_id", "recv.recv_id"),
+  ("quic::SendStream<B> for BidiStream<B>", "poll_ready", "send.poll_ready"),
+  ("quic::SendStream<B> for BidiStream<B>", "poll_finish", "send.poll_finish"),
+  ("quic::SendStream<B> for BidiStream<B>", "reset", "send.reset"),
+  ("quic::SendStream<B> for BidiStream<B>", "send_data", "send.send_data"),
+  ("quic::SendStream<B> for BidiStream<B>", "send_id", "send.send_id"),
+  ("quic::SendStreamUnframed<B> for BidiStream<B>", "poll_send", "send.poll_send"),
+  ("quic::Is0rtt for BidiStream<B>", "is_0rtt", "recv.is_0rtt"),
+  ("RecvStream", "new", "unreachable"),
+  ("quic::RecvStream for RecvStream", "poll_data", "read"),
+  ("quic::RecvStream for RecvStream", "stop_sending", "expect"),
+  ("quic::RecvStream for RecvStream", "recv_id", "expect"),
+  ("quic::Is0rtt for RecvStream", "is_0rtt", ""),
+  ("SendStream<B>", "new", ""),
+  ("quic::SendStream<B> for SendStream<B>", "poll_ready", "write"),
+  ("quic::SendStream<B> for SendStream<B>", "poll_finish", "unknown"),
+  ("quic::SendStream<B> for SendStream<B>", "reset", ""),
+  ("quic::SendStream<B> for SendStream<B>", "send_data", "stream-conn internal"),
+  ("quic::SendStream<B> for SendStream<B>", "send_id", "expect"),
+  ("quic::SendStreamUnframed<B> for SendStream<B>", "poll_send", "stream-conn internal write"),
+  ("SendDatagram<B> for SendDatagramHandler", "send_datagram", "dgram"),
+  ("RecvDatagram for RecvDatagramHandler", "poll_incoming_datagram", "expect conn"),
+  ("DatagramConnectionExt<B> for Connection", "send_datagram_handler", ""),
+  ("DatagramConnectionExt<B> for Connection", "recv_datagram_handler", "")]
 
 end H3.QuinnAdapter
